@@ -3,6 +3,7 @@ package checks
 import (
 	"encoding/json"
 	"fmt"
+	"os"
 	"reflect"
 	"strings"
 
@@ -100,4 +101,13 @@ func universeType(v any) reflect.Type {
 		return t.Elem()
 	}
 	return t
+}
+
+// repoDir is the tree under test: /repo, unless VERIF_REPO names a scratch copy (used only while developing the checks against
+// a pristine worktree; go.mod's replace directive must point at the same directory).
+func repoDir() string {
+	if d := os.Getenv("VERIF_REPO"); d != "" {
+		return d
+	}
+	return "/repo"
 }
